@@ -14,6 +14,7 @@ import YalafiVerif.Proofs.Lines
 import YalafiVerif.Proofs.Replace
 import YalafiVerif.Proofs.Inv.Tex2txt
 import YalafiVerif.Generated.WF
+import YalafiVerif.Proofs.Reports
 namespace Yalafi
 
 theorem C01_getTxtPos_length (ts : List Tok) : (getTxtPos ts).1.length = (getTxtPos ts).2.length :=
@@ -103,5 +104,36 @@ theorem C01_tex2txt_current (fuel : Nat) (latex : Str) (o : Options) (multi : Bo
 /-- non-vacuity: a scanned document satisfies the hypothesis -/
 example : TokInRange 3 { kind := .text, pos := 2, txt := ['a'] } := by
   simp [TokInRange]
+
+end Yalafi
+
+/-
+  The command line (`tex2txt.write_output`, Model/Reports.lean; tied to the code by
+  harness/corr_reports.py): the `--nums` file has one line per number.
+-/
+namespace Yalafi
+open Reports
+
+/-- (e) the lines of the `--nums` file: one per number, the decimal `|n|` followed by `+` iff
+    `n < 0`; no line is empty or holds a line break, so the file (every line followed by a line
+    break) has exactly `len(nums)` lines; the line determines the number -/
+theorem C01_nums_lines (nums : List Int) :
+    (writeNums nums).length = nums.length ∧
+    (∀ i : Nat, (writeNums nums)[i]? = (nums[i]?).map (fun (n : Int) => natToStr n.natAbs ++ (if n < 0 then ['+'] else []))) ∧
+    (∀ l ∈ writeNums nums, '\n' ∉ l ∧ l ≠ []) ∧
+    numsFile nums = (writeNums nums).flatMap (· ++ ['\n']) ∧
+    (numsFile nums).count '\n' = nums.length ∧
+    (∀ a b, numLine a = numLine b → a = b) :=
+  nums_lines nums
+
+/-- `write_output(text, ft, fn)`: the text is written unchanged, and if text and numbers have
+    equal length (`C01_tex2txt`) the `--nums` file has exactly one line per character written -/
+theorem C01_write_output (text : Str × List Int) (h : (textGetTxt text).length = (textGetNum text).length) :
+    (writeOutput text).1 = textGetTxt text ∧
+    (writeOutput text).2 = numsFile (textGetNum text) ∧
+    (writeOutput text).2.count '\n' = (writeOutput text).1.length :=
+  writeOutput_lines text h
+
+example : writeOutput ("aä\n".toList, [1, -12, 3]) = ("aä\n".toList, "1\n12+\n3\n".toList) := by decide
 
 end Yalafi
